@@ -15,6 +15,8 @@ var EvilKinds = []string{
 	"payload-swapped", "sig-bitflip", "sig-stripped", "sig-empty-segment", "two-segments", "four-segments", "five-segments", "not-base64",
 	"aud-absent", "aud-other", "aud-prefix", "aud-suffix", "aud-empty-array", "aud-other-array",
 	"nonce-absent", "nonce-other", "nonce-empty", "nonce-case", "replay-other-sessions-token",
+	// a matching "authorized party" does not make up for an audience that does not contain the client
+	"aud-other-azp-client", "aud-absent-azp-client", "aud-suffix-azp-client", "aud-other-array-azp-client",
 }
 
 // EvilLoginOnly are grammar elements that are invalid at login only (the statement requires the nonce "at login").
@@ -143,6 +145,19 @@ func (p *SimIdP) evilToken(kind string, key *Key, claims map[string]any, login *
 		return good()
 	case "aud-suffix":
 		c["aud"] = p.ClientID + "x"
+		return good()
+	case "aud-other-azp-client":
+		c["aud"], c["azp"] = "other-client", p.ClientID
+		return good()
+	case "aud-absent-azp-client":
+		delete(c, "aud")
+		c["azp"] = p.ClientID
+		return good()
+	case "aud-suffix-azp-client":
+		c["aud"], c["azp"] = p.ClientID+"x", p.ClientID
+		return good()
+	case "aud-other-array-azp-client":
+		c["aud"], c["azp"] = []any{"other-client", p.ClientID + "x"}, p.ClientID
 		return good()
 	case "aud-empty-array":
 		c["aud"] = []any{}
